@@ -35,9 +35,11 @@ import (
 	"reflect"
 	"runtime"
 	"runtime/debug"
+	"runtime/pprof"
 	"strconv"
 	"strings"
 	"sync"
+	"sync/atomic"
 	"time"
 
 	"github.com/dapr/kit/events/ratelimiting"
@@ -131,6 +133,17 @@ func (ex *exec) violate(id, what string) {
 			return
 		}
 	}
+	ex.mu.Lock()
+	from := len(ex.lines) - 14
+	if from < 0 {
+		from = 0
+	}
+	var tail []string
+	for _, l := range ex.lines[from:] {
+		tail = append(tail, l.s)
+	}
+	ex.mu.Unlock()
+	what += " [goroutines: " + ex.lastSnap.key + "] [trace tail: " + strings.Join(tail, " | ") + "]"
 	ex.viol = append(ex.viol, violation{id, what})
 }
 
@@ -177,12 +190,13 @@ func (ex *exec) settle() (snapshot, bool) {
 	deadline := time.Now().Add(opTimeout)
 	for i := 0; ; i++ {
 		runtime.Gosched()
-		snap := snapshotOf(dumpGoroutines(), ex.ignore)
+		// read the return counters BEFORE the dump: a caller that returns after the read is then
+		// either still visible in the (later) dump or makes the equation fail, never a stale match
 		ex.mu.Lock()
-		ok := snap.allBlocked && snap.Adders == 0 &&
-			snap.Closers+ex.closeReturned == ex.closeIssued &&
-			snap.Loop+ex.runReturned == ex.runIssued
+		cr, ci, rr, ri := ex.closeReturned, ex.closeIssued, ex.runReturned, ex.runIssued
 		ex.mu.Unlock()
+		snap := snapshotOf(dumpGoroutines(), ex.ignore)
+		ok := snap.allBlocked && snap.Adders == 0 && snap.Closers+cr == ci && snap.Loop+rr == ri
 		if ok {
 			return snap, true
 		}
@@ -428,7 +442,7 @@ func (ex *exec) step(op *Op) bool {
 	ex.mu.Unlock()
 	if cr > 0 {
 		if snap.Tokens+snap.Senders+snap.Loop > 0 {
-			ex.violate("close-returned-helpers-alive", fmt.Sprintf("after Close returned: %d token, %d sender goroutines, run loop alive=%d", snap.Tokens, snap.Senders, snap.Loop))
+			ex.violate("close-returned-helpers-alive", fmt.Sprintf("after Close returned: %d token, %d sender goroutines, run loop alive=%d (%s)", snap.Tokens, snap.Senders, snap.Loop, snap.key))
 		}
 		if ex.received > cra {
 			ex.violate("signal-after-close", fmt.Sprintf("%d signals received after Close had returned", ex.received-cra))
@@ -879,8 +893,39 @@ func enumerate(maxLen int, f func([]Op)) {
 // model side
 
 type checker struct {
-	drv *lib.Drv
-	res *lib.Result
+	drv    *lib.Drv // used for the f64 differential (main goroutine only)
+	res    *lib.Result
+	jobs   chan *outcome
+	wg     sync.WaitGroup
+	traces int64
+}
+
+// startWorkers launches n model drivers that check traces while the harness executes the next cases.
+func (ck *checker) startWorkers(path string, n int) {
+	ck.jobs = make(chan *outcome, 256)
+	for i := 0; i < n; i++ {
+		d, err := lib.StartDrv(path, "C09")
+		if err != nil || d == nil {
+			continue
+		}
+		ck.wg.Add(1)
+		go func(d *lib.Drv) {
+			defer ck.wg.Done()
+			defer d.Close()
+			for o := range ck.jobs {
+				ck.checkWith(d, o)
+			}
+		}(d)
+	}
+}
+
+func (ck *checker) finish() {
+	if ck.jobs != nil {
+		close(ck.jobs)
+		ck.wg.Wait()
+		ck.jobs = nil
+	}
+	ck.res.Traces = int(atomic.LoadInt64(&ck.traces))
 }
 
 func traceLines(o *outcome, hooks bool) []string {
@@ -917,9 +962,37 @@ func (ck *checker) check(o *outcome) {
 	if ck.drv == nil {
 		return
 	}
+	if ck.jobs != nil {
+		ck.jobs <- o
+		return
+	}
+	ck.checkWith(ck.drv, o)
+}
+
+func (ck *checker) checkWith(drv *lib.Drv, o *outcome) {
+	hasPark := false
+	for _, l := range o.Lines {
+		if l.hook && strings.HasSuffix(l.s, "park=1") {
+			hasPark = true
+		}
+	}
 	for _, hooks := range []bool{true, false} {
+		if !hooks && hasPark {
+			// without the hook events the model cannot know that the loop stood still while the
+			// harness acted; the projection of such a trace is accepted a fortiori but its state set
+			// explodes — the hook-level check above is the precise one
+			ck.res.Hit("model:projection-skipped(parked)")
+			continue
+		}
 		ls := traceLines(o, hooks)
-		ans, err := ck.drv.AskBatch(ls)
+		t0 := time.Now()
+		ans, err := drv.AskBatch(ls)
+		if el := time.Since(t0); el > 100*time.Millisecond {
+			ck.res.Hit("model:slow-trace(>100ms)")
+			if os.Getenv("C09_SLOW") != "" {
+				fmt.Fprintf(os.Stderr, "slow trace %v hooks=%v %s\n", el, hooks, o.Case.key())
+			}
+		}
 		if err != nil {
 			ck.res.Disagree("trace-inclusion", o.Case, "driver error: "+err.Error(), "")
 			return
@@ -939,7 +1012,7 @@ func (ck *checker) check(o *outcome) {
 			ck.res.Disagree(name, o.Case, a, fmt.Sprintf("event %d of %d; trace tail: %s", i, len(ls), strings.Join(ls[from:i+1], " | ")))
 			break
 		}
-		ck.res.Traces++
+		atomic.AddInt64(&ck.traces, 1)
 	}
 }
 
@@ -1062,6 +1135,12 @@ func f64Differential(res *lib.Result, ck *checker, r *lib.Rand, n int) {
 
 func main() {
 	fl := lib.ParseFlags()
+	if pf := os.Getenv("C09_CPUPROFILE"); pf != "" {
+		if f, err := os.Create(pf); err == nil {
+			pprof.StartCPUProfile(f)
+			defer pprof.StopCPUProfile()
+		}
+	}
 	debug.SetGCPercent(400)
 	res := lib.NewResult("a case is non-trivial when the run loop handled an expiry, or ≥ 2 tokens, or was parked at a hook by the harness (distinct = distinct executed op list incl. resolved clock targets and configuration)")
 	drv, err := lib.StartDrv(fl.Drv, "C09")
@@ -1089,7 +1168,9 @@ func main() {
 			os.Exit(3)
 		}
 		n := 1
-		if rp.Case.Family == "race" {
+		if v, err := strconv.Atoi(os.Getenv("C09_REPEAT")); err == nil && v > 0 {
+			n = v
+		} else if rp.Case.Family == "race" {
 			n = 40 // the select's choice is the runtime's: repeat
 		}
 		for i := 0; i < n; i++ {
@@ -1097,6 +1178,7 @@ func main() {
 			report(res, ck, o)
 			res.Sample(map[string]any{"case": o.Case, "trace": plain(o.Lines), "violations": o.Viol})
 		}
+		ck.finish()
 		res.Write(fl.Out)
 		return
 	}
@@ -1110,6 +1192,9 @@ func main() {
 		mult *= 6
 	}
 	start := time.Now()
+	if drv != nil {
+		ck.startWorkers(fl.Drv, 6)
+	}
 
 	// 1. Close / cancel landing between a handler and the select (every combination, several configurations)
 	for rep := 0; rep < 6*mult; rep++ {
@@ -1191,6 +1276,7 @@ func main() {
 		report(res, ck, runCase(c, g))
 	}
 	f64Differential(res, ck, r, 2000*mult)
+	ck.finish()
 	res.Note(fmt.Sprintf("wall %.1fs", time.Since(start).Seconds()))
 	res.Write(fl.Out)
 }
